@@ -33,6 +33,10 @@ for d in sorted(glob.glob(os.path.join(V, 'seeded', '*'))):
     rows.append((name, prop, status))
     print(name, prop, status, flush=True)
 subprocess.run(['git', '-C', '/repo', 'worktree', 'prune'])
+if want and os.environ.get('SEEDVERIFY_APPEND') and os.path.exists(os.path.join(V, 'seeded', 'VERIFY.md')):
+    with open(os.path.join(V, 'seeded', 'VERIFY.md'), 'a') as f:
+        for r in rows:
+            f.write('| `%s` | %s | %s |\n' % r)
 if not want:
     with open(os.path.join(V, 'seeded', 'VERIFY.md'), 'w') as f:
         f.write('# Detection re-confirmed on the final tree\n\nEach kept patch applied to a fresh worktree of /repo HEAD, quick tier of its own property run against it (`python -m mc.seedverify`).\n\n| seeded change | property | result |\n|---|---|---|\n')
